@@ -574,7 +574,12 @@ func TestC18(t *testing.T) {
 				q.CtxGroup = 0
 			}
 		}
-		sc.Label = fmt.Sprintf("merge-n%d-mode%d-pos%d", n, mode, pos)
+		if (c.Idx/4)%2 == 1 {
+			for _, q := range sc.Reqs {
+				q.TraceGroup = 1 // all contributors are siblings within one trace
+			}
+		}
+		sc.Label = fmt.Sprintf("merge-n%d-mode%d-pos%d-sametrace%v", n, mode, pos, (c.Idx/4)%2 == 1)
 		run := NewRun(sc, c.R.Uint64())
 		var err error
 		runBubble(t, func() { _, err = run.Exec() })
@@ -621,6 +626,24 @@ func TestC18(t *testing.T) {
 			}
 		}
 		c.Sample(map[string]any{"layer": "subset", "contributors": n, "kinds": kinds, "subsets_per_kind": 1<<n - 1})
+	})
+	// real goroutines: merges are decided by the scheduler; cancellations land at arbitrary points
+	r.Layer("stress", e.Pick(60, 900), func(c *vc.Case) {
+		if c.Idx%2 == 1 {
+			runtime.GOMAXPROCS(2)
+			defer runtime.GOMAXPROCS(runtime.NumCPU())
+		}
+		sc := GenScenario(c.R, Profile{Sig: -1, Cancels: true, Fails: c.R.IntN(3) == 0, Tracing: true, HookMode: "all", EarlyReturn: -1, MaxCallers: 8, SharedCtx: true})
+		if sc.Cfg.SendBatchSize < 2 {
+			sc.Cfg.SendBatchSize = uint32(2 + c.R.IntN(6))
+			if sc.Cfg.SendBatchMaxSize != 0 && sc.Cfg.SendBatchMaxSize < sc.Cfg.SendBatchSize {
+				sc.Cfg.SendBatchMaxSize = sc.Cfg.SendBatchSize
+			}
+		}
+		sc.Label = "stress"
+		sc.Shutdown = 0
+		run, err := execStress(c, sc)
+		post(c, run, err, "stress")
 	})
 	r.Layer("random", e.Pick(500, 15000), func(c *vc.Case) {
 		sc := GenScenario(c.R, Profile{Sig: -1, Keys: c.R.IntN(5) == 0, Cancels: true, Fails: c.R.IntN(3) == 0, Tracing: true, HookMode: "not-caller", EarlyReturn: -1, MaxCallers: 8, SharedCtx: true})
